@@ -183,6 +183,7 @@ type Sim struct {
 	N       int
 	ghost   int
 	Phones  []string
+	Pending []*Action // follow-up actions queued by the generator (consumed before new draws)
 }
 
 // SeedOpt controls account seeding.
